@@ -7,7 +7,7 @@ Ltac solve_st J ext calls :=
   lazymatch goal with
   | |- J ?t =>
       first [ assumption
-            | calls; solve_st J ext calls
+            | calls tt; solve_st J ext calls
             | let b := strip_r t in
               tryif constr_eq b t then fail
               else (eapply (ext b); [ solve_st J ext calls | reflexivity .. ]) ]
@@ -68,9 +68,15 @@ Proof.
   destruct (handler _ c); cbn [fst]; [apply JQ_cancel_|apply JQ_suspend| |apply JQ_abandon]; exact H1.
 Qed.
 
-Ltac jq_calls :=
-  first [ apply JQ_shutdown | apply JQ_abandon | apply JQ_suspend | apply JQ_cancel_
-        | apply JQ_handle_fault; [jq_side|] | apply JQ_ind; [jq_side|] ].
+Ltac jq_calls _ :=
+  lazymatch goal with
+  | |- JQ (shutdown _ _) => apply JQ_shutdown
+  | |- JQ (abandon _ _) => apply JQ_abandon
+  | |- JQ (suspend _ _) => apply JQ_suspend
+  | |- JQ (cancel_ _ _) => apply JQ_cancel_
+  | |- JQ (fst (handle_fault _ _ _)) => apply JQ_handle_fault; [jq_side|]
+  | |- JQ (emit_ind _ _) => apply JQ_ind; [jq_side|]
+  end.
 Ltac jq := solve_st JQ JQ_ext jq_calls.
 Ltac pass_q := repeat (first [destr_pair_keep | destr_inner]; cbn [fst snd]); try jq.
 
@@ -103,7 +109,7 @@ Proof.
   apply JQ_check_finished.
   pose proof (JQ_store o d s H) as H1.
   unfold c_timeout_occurred. repeat (first [destr_pair_keep | destr_inner]; cbn [fst snd]);
-    solve_st JQ JQ_ext ltac:(first [exact H1 | jq_calls]).
+    solve_st JQ JQ_ext ltac:(fun _ => first [exact H1 | jq_calls tt]).
 Qed.
 
 Lemma JQ_eof_acked now e s : JQ s ->
@@ -195,10 +201,16 @@ Proof.
   unfold D20. cbn. split; [exact H1|]. rewrite H3, Hr. reflexivity.
 Qed.
 
-Ltac d20_calls :=
-  first [ apply D20_store
-        | eapply D20_of_Kp; [ first [ apply Kp_shutdown | apply Kp_abandon | apply Kp_suspend | apply Kp_cancel_
-                                    | apply Kp_handle_fault ]; apply Kp_refl | ] ].
+Ltac d20_kp lem := eapply D20_of_Kp; [ apply lem; apply Kp_refl | ].
+Ltac d20_calls _ :=
+  lazymatch goal with
+  | |- D20 (store_file_data _ _ _) => apply D20_store
+  | |- D20 (shutdown _ _) => d20_kp Kp_shutdown
+  | |- D20 (abandon _ _) => d20_kp Kp_abandon
+  | |- D20 (suspend _ _) => d20_kp Kp_suspend
+  | |- D20 (cancel_ _ _) => d20_kp Kp_cancel_
+  | |- D20 (fst (handle_fault _ _ _)) => d20_kp Kp_handle_fault
+  end.
 Ltac d20 := solve_st D20 D20_ext d20_calls.
 Ltac pass_d20 := repeat (first [destr_pair_keep | destr_inner]; cbn [fst snd]); try d20.
 
@@ -222,7 +234,7 @@ Proof.
     unfold pdu_filedata_acked. destr_inner; [exact H0|]. apply D20_check_finished.
     pose proof (D20_store offset data s0 H0) as H1. unfold c_timeout_occurred.
     repeat (first [destr_pair_keep | destr_inner]; cbn [fst snd]);
-      solve_st D20 D20_ext ltac:(first [exact H1 | d20_calls]).
+      solve_st D20 D20_ext ltac:(fun _ => first [exact H1 | d20_calls tt]).
   - (* EOF, acknowledged *)
     unfold pdu_eof_acked. destr_inner; [d20|]. destr_inner; [|d20].
     match goal with |- context [check_finished now ?x] =>
